@@ -173,10 +173,16 @@ func (a *actorT) park(e *eng, point string) {
 }
 
 // outer is what hx.Main drives: it owns one fresh *eng per case
-type outer struct{ cur *eng }
+type outer struct {
+	cur   *eng
+	stuck int // cases of this run in which an actor got stuck (each costs stuckTimeout)
+}
 
 func (o *outer) Case(id string) {
 	if o.cur != nil {
+		if o.cur.poisoned {
+			o.stuck++
+		}
 		go o.cur.drain() // actors of the finished case run to completion on their own state
 	}
 	e := &eng{}
@@ -189,6 +195,11 @@ func (o *outer) Case(id string) {
 func (o *outer) Op(f []string, line string, out *hx.Out) {
 	if o.cur == nil {
 		o.Case("anon")
+	}
+	if o.stuck >= 3 {
+		// the first stuck cases are reported and shrunk; executing hundreds more would only burn timeouts
+		out.P("X skipped: %d cases of this run already got stuck", o.stuck)
+		return
 	}
 	o.cur.Op(f, line, out)
 }
@@ -331,12 +342,15 @@ func (e *eng) run(a *actorT) {
 	case "w":
 		h := e.db.NewHandle(a.name)
 		var metas []statedb.TableMeta
-		e.mu.Lock()
-		ntab := e.ntab0
-		for _, t := range a.tabs {
-			metas = append(metas, e.tabs[t])
-		}
-		e.mu.Unlock()
+		ntab := 0
+		func() {
+			e.mu.Lock()
+			defer e.mu.Unlock() // never leave the harness mutex locked on a panic (e.g. a table index a shrunk case no longer has)
+			ntab = e.ntab0
+			for _, t := range a.tabs {
+				metas = append(metas, e.tabs[t])
+			}
+		}()
 		w := h.WriteTxn(metas...)
 		defer func() {
 			// a panicking actor must not keep its table locks (the other actors would hang)
@@ -350,8 +364,9 @@ func (e *eng) run(a *actorT) {
 		}
 		for _, r := range a.reg {
 			key := fmt.Sprintf("%d/%d", r[0], r[1])
+			done := e.tabs[r[0]].RegisterInitializer(w, fmt.Sprint(r[1])) // may panic: not under the harness mutex
 			e.mu.Lock()
-			e.inits[key] = e.tabs[r[0]].RegisterInitializer(w, fmt.Sprint(r[1]))
+			e.inits[key] = done
 			e.mu.Unlock()
 		}
 		for _, r := range a.done {
